@@ -569,7 +569,9 @@ func vC04Singles() []Filter {
 	return out
 }
 
-func (s *vC04Sys) Key() string {
+func (s *vC04Sys) Key() string { return s.keyCanon() + "#deep" + vDeepHash(s.idx) }
+
+func (s *vC04Sys) keyCanon() string {
 	ids := []int{}
 	for id := range s.live {
 		ids = append(ids, int(id))
